@@ -8,6 +8,12 @@ FAMS = {"A": ([[], [1], [2, 1], [3, 2]], [4, 3, 4]),
         "B": ([[], [1], [1], [2, 3], [4, 1]], [5, 4, 2]),
         "C": ([[], [1], [2]], [3, 3, 3]),
         "D": ([[], [], [1, 2], [2, 1], [3, 4], [4, 3]], [5, 6])}
+# cyclic programs (C06): `gen_conc.py OUT SEED NUM cyclic`
+CYC = {"E": ([[4, 2], [1], [1], []], [1, 2, 3]),
+       "F": ([[2], [3], [1], [2]], [1, 2, 3]),
+       "G": ([[1], [1], [2, 4], [3]], [2, 3, 4])}
+if len(sys.argv) > 4 and sys.argv[4] == "cyclic":
+    FAMS = CYC
 n = 0
 states = 0
 with open(out, "w") as f:
@@ -23,7 +29,7 @@ with open(out, "w") as f:
         for l in p.stdout.splitlines():
             if l.startswith('"{'):
                 d = json.loads(json.loads(l))
-                f.write(json.dumps({"fam": fam, "deps": deps, "roots": roots, "steps": d["steps"]}) + "\n")
+                f.write(json.dumps({"fam": fam, "deps": deps, "roots": roots, "steps": d["steps"], "cut": d.get("cut", [])}) + "\n")
                 n += 1
                 states += len(d["steps"])
 print(json.dumps({"behaviours": n, "steps": states}))
